@@ -120,6 +120,10 @@ RedrawStep(e, free0) ==
                            !.alias = Aliased(gone), !.topimg = \A x \in newg : x.wid \in topw]
             ELSE IF judged /\ newm # {}
                    THEN [V("missing", ToJson(newm), Cardinality(newm)) EXCEPT !.alias = Aliased(gone)]
+            \* kitty stacks a line sent twice at the same cell and z-index (Konsole replaces it): the
+            \* same image line must not be present twice
+            ELSE IF judged /\ Id = "kitty" /\ Len(T1.pl) # Cardinality(shown)
+                   THEN V("duplicate", "", Len(T1.pl) - Cardinality(shown))
             ELSE OK
       \* mechanism level: compared only for composite canvases (the treatment of a bare leaf canvas
       \* is judged by its effect on the terminal alone)
